@@ -7,9 +7,9 @@ package main
 
 import (
 	"fmt"
-	"os"
 	"go/token"
 	"go/types"
+	"os"
 	"sort"
 	"strings"
 
@@ -19,10 +19,13 @@ import (
 type dimAnalyzer struct {
 	m    *Model
 	refs map[string]string // Table.Field → referenced Table.Field
+	// per-function map kinds, memoised for the flow of maps between functions of one package
+	fnMemo map[*ssa.Function]*fnDims
+	fnBusy map[*ssa.Function]bool
 }
 
 func newDimAnalyzer(m *Model) *dimAnalyzer {
-	d := &dimAnalyzer{m: m, refs: map[string]string{}}
+	d := &dimAnalyzer{m: m, refs: map[string]string{}, fnMemo: map[*ssa.Function]*fnDims{}, fnBusy: map[*ssa.Function]bool{}}
 	for _, fk := range fkSpecs {
 		d.refs[fk.table+"."+fk.field] = fk.refTable + "." + fk.refField
 	}
@@ -71,6 +74,11 @@ func mapRoot(v ssa.Value) ssa.Value {
 		switch x := v.(type) {
 		case *ssa.MakeMap:
 			return x
+		case *ssa.Parameter:
+			if _, isMap := x.Type().Underlying().(*types.Map); isMap {
+				return x
+			}
+			return nil
 		case *ssa.UnOp:
 			if x.Op == token.MUL {
 				if a, ok := x.X.(*ssa.Alloc); ok {
@@ -154,6 +162,16 @@ func (f *fnDims) compute(v ssa.Value) string {
 				return oc.Table.Name + "." + snakeToCamel(oc.Table.PK[0])
 			}
 		}
+		// a key handed back by a helper of the package
+		if call, ok := x.Tuple.(*ssa.Call); ok {
+			if h := call.Call.StaticCallee(); h != nil && !call.Call.IsInvoke() && h.Pkg == f.fn.Pkg {
+				return f.d.returnedValueDim(h, x.Index)
+			}
+		}
+	case *ssa.Call:
+		if h := x.Call.StaticCallee(); h != nil && !x.Call.IsInvoke() && h.Pkg == f.fn.Pkg && h.Signature.Results().Len() == 1 {
+			return f.d.returnedValueDim(h, 0)
+		}
 	case *ssa.Phi:
 		got := ""
 		for _, e := range x.Edges {
@@ -190,11 +208,88 @@ func (d *dimAnalyzer) analyzeDims(fn *ssa.Function) (issues []dimIssue, sites in
 // mapDims: pass 1 of the discipline — the key and value kinds of the maps a function fills.
 func (d *dimAnalyzer) mapDims(fn *ssa.Function) (f *fnDims, issues []dimIssue) {
 	f = &fnDims{d: d, fn: fn, memo: map[ssa.Value]string{}, busy: map[ssa.Value]bool{}, mapKey: map[ssa.Value]string{}, mapVal: map[ssa.Value]string{}, mapSite: map[ssa.Value]ssa.Instruction{}}
+	// maps received as parameters: the kinds every caller in the package agrees on
+	if !d.fnBusy[fn] {
+		d.fnBusy[fn] = true
+		for _, prm := range fn.Params {
+			if _, isMap := prm.Type().Underlying().(*types.Map); !isMap {
+				continue
+			}
+			k, v, first := "", "", true
+			for _, arg := range callerArgs(prm) {
+				ak, av := d.argMapDims(arg)
+				if first {
+					k, v, first = ak, av, false
+					continue
+				}
+				if ak != k {
+					k = ""
+				}
+				if av != v {
+					v = ""
+				}
+			}
+			if k != "" {
+				f.mapKey[prm] = k
+			}
+			if v != "" {
+				f.mapVal[prm] = v
+			}
+		}
+		delete(d.fnBusy, fn)
+	}
 	// pass 1 (twice, so value dims that depend on other maps settle): map updates define key/value dims
 	for round := 0; round < 2; round++ {
 		f.memo = map[ssa.Value]string{}
 		for _, b := range fn.Blocks {
 			for _, in := range b.Instrs {
+				// a helper of the package that fills a map it is handed: its updates count as updates here,
+				// with its parameters bound to this call's arguments
+				if call, isCall := in.(*ssa.Call); isCall {
+					if h := call.Call.StaticCallee(); h != nil && h != fn && h.Pkg == fn.Pkg && len(h.Blocks) > 0 && !call.Call.IsInvoke() && !d.fnBusy[h] {
+						for i, a := range call.Call.Args {
+							r := mapRoot(a)
+							if r == nil || i >= len(h.Params) {
+								continue
+							}
+							d.fnBusy[fn] = true
+							var hd *fnDims
+							for _, hb := range h.Blocks {
+								for _, hin := range hb.Instrs {
+									mu, ok := hin.(*ssa.MapUpdate)
+									if !ok || mapRoot(mu.Map) != ssa.Value(h.Params[i]) {
+										continue
+									}
+									bind := func(v ssa.Value) string {
+										if q, isP := v.(*ssa.Parameter); isP {
+											for j, hp := range h.Params {
+												if hp == q && j < len(call.Call.Args) {
+													return f.dim(call.Call.Args[j])
+												}
+											}
+											return ""
+										}
+										if hd == nil {
+											hd = d.dimsOf(h)
+										}
+										return hd.dim(v)
+									}
+									if kd := bind(mu.Key); kd != "" {
+										if _, has := f.mapKey[r]; !has {
+											f.mapKey[r] = kd
+										}
+									}
+									if vd := bind(mu.Value); vd != "" {
+										if _, has := f.mapVal[r]; !has {
+											f.mapVal[r] = vd
+										}
+									}
+								}
+							}
+							delete(d.fnBusy, fn)
+						}
+					}
+				}
 				mu, ok := in.(*ssa.MapUpdate)
 				if !ok {
 					continue
@@ -289,29 +384,7 @@ func (d *dimAnalyzer) analyzeUses(f *fnDims, issues []dimIssue) ([]dimIssue, int
 // key (not found ⇒ error) or a comma-ok map lookup whose ok flag is branched on. A plain map index
 // silently yields the zero value and resolves nothing.
 func (d *dimAnalyzer) checkedLookups(fn *ssa.Function) map[string]string {
-	f := &fnDims{d: d, fn: fn, memo: map[ssa.Value]string{}, busy: map[ssa.Value]bool{}, mapKey: map[ssa.Value]string{}, mapVal: map[ssa.Value]string{}, mapSite: map[ssa.Value]ssa.Instruction{}}
-	for round := 0; round < 2; round++ {
-		f.memo = map[ssa.Value]string{}
-		for _, b := range fn.Blocks {
-			for _, in := range b.Instrs {
-				if mu, ok := in.(*ssa.MapUpdate); ok {
-					if r := mapRoot(mu.Map); r != nil {
-						if kd := f.dim(mu.Key); kd != "" {
-							if _, has := f.mapKey[r]; !has {
-								f.mapKey[r] = kd
-							}
-						}
-						if vd := f.dim(mu.Value); vd != "" {
-							if _, has := f.mapVal[r]; !has {
-								f.mapVal[r] = vd
-							}
-						}
-					}
-				}
-			}
-		}
-	}
-	f.memo = map[ssa.Value]string{}
+	f, _ := d.mapDims(fn)
 	out := map[string]string{}
 	for _, b := range fn.Blocks {
 		for _, in := range b.Instrs {
@@ -391,12 +464,117 @@ func ruleKeyDims(c *Ctx, m *Model, rule string, pkgFilter func(pkg string) bool)
 
 // ---- maps handed from one function to another ---------------------------------------------
 
+// returnedValueDim: the key kind of a (non-map) result of a function of the package, when all its
+// returning sites agree (constants and zero values aside).
+func (d *dimAnalyzer) returnedValueDim(fn *ssa.Function, resIdx int) string {
+	if len(fn.Blocks) == 0 || d.fnBusy[fn] {
+		return ""
+	}
+	if resIdx >= fn.Signature.Results().Len() {
+		return ""
+	}
+	switch fn.Signature.Results().At(resIdx).Type().Underlying().(type) {
+	case *types.Basic:
+	default:
+		return ""
+	}
+	d.fnBusy[fn] = true
+	defer delete(d.fnBusy, fn)
+	f, _ := d.mapDims(fn)
+	got := ""
+	for _, b := range fn.Blocks {
+		for _, in := range b.Instrs {
+			rt, ok := in.(*ssa.Return)
+			if !ok || resIdx >= len(rt.Results) {
+				continue
+			}
+			cands := []ssa.Value{rt.Results[resIdx]}
+			if ld, isLd := rt.Results[resIdx].(*ssa.UnOp); isLd && ld.Op == token.MUL {
+				if al, isA := ld.X.(*ssa.Alloc); isA {
+					cands = nil
+					for _, rf := range *al.Referrers() {
+						if st, isSt := rf.(*ssa.Store); isSt && st.Addr == al {
+							cands = append(cands, st.Val)
+						}
+					}
+				}
+			}
+			for _, cv := range cands {
+				if _, isC := cv.(*ssa.Const); isC {
+					continue
+				}
+				k := f.dim(cv)
+				if k == "" || (got != "" && got != k) {
+					return ""
+				}
+				got = k
+			}
+		}
+	}
+	return got
+}
+
+// dimsOf: memoised map kinds of a function.
+func (d *dimAnalyzer) dimsOf(fn *ssa.Function) *fnDims {
+	if f, ok := d.fnMemo[fn]; ok {
+		return f
+	}
+	f, _ := d.mapDims(fn)
+	d.fnMemo[fn] = f
+	return f
+}
+
+// argMapDims: key and value kinds of a map-typed argument — a local map of the calling function, or the
+// result of a call to a function that returns a map it filled.
+func (d *dimAnalyzer) argMapDims(arg ssa.Value) (string, string) {
+	var caller *ssa.Function
+	if in, ok := arg.(ssa.Instruction); ok {
+		caller = in.Parent()
+	} else if p, ok := arg.(*ssa.Parameter); ok {
+		caller = p.Parent()
+	}
+	if caller == nil || d.fnBusy[caller] {
+		return "", ""
+	}
+	if r := mapRoot(arg); r != nil {
+		fd := d.dimsOf(caller)
+		return fd.mapKey[r], fd.mapVal[r]
+	}
+	v := arg
+	if ld, ok := v.(*ssa.UnOp); ok && ld.Op == token.MUL {
+		if al, ok := ld.X.(*ssa.Alloc); ok {
+			if sv := uniqueStore(al); sv != nil {
+				v = sv
+			}
+		}
+	}
+	resIdx := 0
+	if ex, ok := v.(*ssa.Extract); ok {
+		resIdx = ex.Index
+		v = ex.Tuple
+	}
+	if pc, ok := v.(*ssa.Call); ok {
+		if prod := pc.Call.StaticCallee(); prod != nil && !pc.Call.IsInvoke() && !d.fnBusy[prod] {
+			return d.returnedMapKey(prod, resIdx), d.returnedMapVal(prod, resIdx)
+		}
+	}
+	return "", ""
+}
+
+func (d *dimAnalyzer) returnedMapVal(fn *ssa.Function, resIdx int) string {
+	return d.returnedMapDim(fn, resIdx, true)
+}
+
 // returnedMapKey: the key kind of the map a function returns (all returning sites agree).
 func (d *dimAnalyzer) returnedMapKey(fn *ssa.Function, resIdx int) string {
+	return d.returnedMapDim(fn, resIdx, false)
+}
+
+func (d *dimAnalyzer) returnedMapDim(fn *ssa.Function, resIdx int, value bool) string {
 	if len(fn.Blocks) == 0 {
 		return ""
 	}
-	f, _ := d.mapDims(fn)
+	f := d.dimsOf(fn)
 	got := ""
 	for _, b := range fn.Blocks {
 		for _, in := range b.Instrs {
@@ -422,6 +600,9 @@ func (d *dimAnalyzer) returnedMapKey(fn *ssa.Function, resIdx int) string {
 					continue
 				}
 				k := f.mapKey[r]
+				if value {
+					k = f.mapVal[r]
+				}
 				if k == "" {
 					continue
 				}
@@ -449,6 +630,9 @@ func sliceRoot(v ssa.Value) ssa.Value {
 	case *ssa.Alloc:
 		return x
 	}
+	if _, isSl := v.Type().Underlying().(*types.Slice); isSl {
+		return v
+	}
 	return nil
 }
 
@@ -457,6 +641,29 @@ func sliceRoot(v ssa.Value) ssa.Value {
 // on a known column — directly or after collecting them in a local slice (collect, sort, iterate).
 func (d *dimAnalyzer) paramMapKeyDemand(fn *ssa.Function, prm *ssa.Parameter) (string, token.Pos) {
 	f, _ := d.mapDims(fn)
+	tainted, _ := keyTaint(fn, prm, 0)
+	isT := func(v ssa.Value) bool {
+		for i := 0; i < 4; i++ {
+			if tainted[v] {
+				return true
+			}
+			switch x := v.(type) {
+			case *ssa.Convert:
+				v = x.X
+			case *ssa.ChangeType:
+				v = x.X
+			default:
+				return false
+			}
+		}
+		return false
+	}
+	return d.demandFromTaint(fn, prm, f, isT)
+}
+
+// keyTaint: the values of fn that hold a key of the map parameter prm, and the local slices that hold
+// such keys (collected, possibly by a helper of the package that returns them, possibly sorted).
+func keyTaint(fn *ssa.Function, prm *ssa.Parameter, depth int) (map[ssa.Value]bool, map[ssa.Value]bool) {
 	tainted := map[ssa.Value]bool{}
 	slices := map[ssa.Value]bool{}
 	isT := func(v ssa.Value) bool {
@@ -503,6 +710,13 @@ func (d *dimAnalyzer) paramMapKeyDemand(fn *ssa.Function, prm *ssa.Parameter) (s
 						}
 					}
 				case *ssa.Store:
+					// a slice of keys kept in a local variable
+					if slices[x.Val] {
+						if a, isA := x.Addr.(*ssa.Alloc); isA && !slices[a] {
+							slices[a] = true
+							changed = true
+						}
+					}
 					if !isT(x.Val) {
 						continue
 					}
@@ -529,6 +743,71 @@ func (d *dimAnalyzer) paramMapKeyDemand(fn *ssa.Function, prm *ssa.Parameter) (s
 						}
 					}
 				case *ssa.Call:
+					// keys := sortedKeys(m): a helper of the package that returns the keys of the map it is handed
+					if h := x.Call.StaticCallee(); h != nil && h.Pkg == fn.Pkg && len(h.Blocks) > 0 && depth < 2 && !x.Call.IsInvoke() {
+						for i, a := range x.Call.Args {
+							src := a
+							if ld, isLd := src.(*ssa.UnOp); isLd && ld.Op == token.MUL {
+								if al, isA := ld.X.(*ssa.Alloc); isA {
+									if sv := uniqueStore(al); sv != nil {
+										src = sv
+									}
+								}
+							}
+							if src != ssa.Value(prm) || i >= len(h.Params) {
+								continue
+							}
+							ht, hs := keyTaint(h, h.Params[i], depth+1)
+							for _, hb := range h.Blocks {
+								for _, hin := range hb.Instrs {
+									rt, isRet := hin.(*ssa.Return)
+									if !isRet {
+										continue
+									}
+									for ri, rv := range rt.Results {
+										isKeys := ht[rv]
+										if r := sliceRoot(rv); r != nil && hs[r] {
+											isKeys = true
+										}
+										if ld, isLd := rv.(*ssa.UnOp); isLd && !isKeys {
+											if al, isA := ld.X.(*ssa.Alloc); isA {
+												for _, rf := range *al.Referrers() {
+													if st, isSt := rf.(*ssa.Store); isSt && st.Addr == al {
+														if r := sliceRoot(st.Val); r != nil && hs[r] {
+															isKeys = true
+														}
+													}
+												}
+											}
+										}
+										if !isKeys {
+											continue
+										}
+										var res ssa.Value = x
+										if len(rt.Results) > 1 {
+											res = nil
+											for _, rf := range *x.Referrers() {
+												if ex, isEx := rf.(*ssa.Extract); isEx && ex.Index == ri {
+													res = ex
+												}
+											}
+										}
+										if res == nil {
+											continue
+										}
+										if _, isSl := res.Type().Underlying().(*types.Slice); isSl {
+											if !slices[res] {
+												slices[res] = true
+												changed = true
+											}
+										} else {
+											mark(res)
+										}
+									}
+								}
+							}
+						}
+					}
 					// append(keys, k)
 					if bi, ok := x.Call.Value.(*ssa.Builtin); ok && bi.Name() == "append" && len(x.Call.Args) == 2 {
 						if sl, ok := x.Call.Args[1].(*ssa.Slice); ok {
@@ -569,6 +848,10 @@ func (d *dimAnalyzer) paramMapKeyDemand(fn *ssa.Function, prm *ssa.Parameter) (s
 			}
 		}
 	}
+	return tainted, slices
+}
+
+func (d *dimAnalyzer) demandFromTaint(fn *ssa.Function, prm *ssa.Parameter, f *fnDims, isT func(ssa.Value) bool) (string, token.Pos) {
 	got, pos := "", token.NoPos
 	demand := func(k string, p token.Pos) bool {
 		if k == "" {
@@ -586,13 +869,13 @@ func (d *dimAnalyzer) paramMapKeyDemand(fn *ssa.Function, prm *ssa.Parameter) (s
 		for _, in := range b.Instrs {
 			switch x := in.(type) {
 			case *ssa.Lookup:
-				if r := mapRoot(x.X); r != nil && isT(x.Index) {
+				if r := mapRoot(x.X); r != nil && r != ssa.Value(prm) && isT(x.Index) {
 					if !demand(f.mapKey[r], x.Pos()) {
 						return "", token.NoPos
 					}
 				}
 			case *ssa.MapUpdate:
-				if r := mapRoot(x.Map); r != nil && isT(x.Key) {
+				if r := mapRoot(x.Map); r != nil && r != ssa.Value(prm) && isT(x.Key) {
 					// filling a local map under the parameter's keys: the kind the other fillers give it
 					for _, b2 := range fn.Blocks {
 						for _, in2 := range b2.Instrs {
